@@ -230,3 +230,18 @@ theorem twoCstrs_ok (n1 n2 : Bytes) (h1 : ∀ b ∈ n1, b ≠ 0) (h2 : ∀ b ∈
   split <;> rfl
 
 end Fbr.Srv
+
+namespace Fbr.Srv
+open Fbr.Wire
+
+/-- common hypotheses of a well-formed request -/
+structure Req (fs : Call → Ans) (h : Hdr) : Prop where
+  wf : h.WF
+  len : h.len ≤ MAX_BUFFER_SIZE + BUFFER_HEADER_SIZE
+  remapOk : ∀ e, fs (remapOf h) ≠ .err e
+
+/-- the call the handlers make with the (possibly remapped) caller ids -/
+def call (fs : Call → Ans) (h : Hdr) (m : String) (args : List Arg) : Call :=
+  { method := m, ctx := ctxFor h (fs (remapOf h)), args := args }
+
+end Fbr.Srv
